@@ -198,11 +198,23 @@ func TestC06_MessageFidelity(t *testing.T) {
 		pattern := rapid.SliceOfN(rapid.Bool(), 1, 8).Draw(t, "inline")
 		wantMsg := expectedMessageEvents(sess)
 		wantFrames := expectedFrameEvents(sess)
+		exactFit := 0
+		if rapid.IntRange(0, 2).Draw(t, "exactFitBuffer") == 0 {
+			for _, e := range wantMsg {
+				if e.Kind != "ctl" && len(e.Payload) > exactFit {
+					exactFit = len(e.Payload)
+				}
+			}
+		}
 		for _, api := range readAPIs {
 			for vi, ch := range [][][]byte{chunks, chunks2} {
 				k := 0
 				inline := func(bool) bool { k++; return pattern[k%len(pattern)] }
-				got, ferr, problem := readSession(api, max, ch, inline)
+				bufLen := max + 16
+				if exactFit > 0 && (api == "NextMessage" || api == "AsyncNextMessage") {
+					bufLen = exactFit // the reader's buffer is exactly as long as the longest message of the session
+				}
+				got, ferr, problem, _, _ := readSessionOn(api, max, bufLen, ch, inline)
 				c := cuts
 				if vi == 1 {
 					c = cuts2
